@@ -14,7 +14,7 @@ Proved for every reachable state (every interleaving):
 * `C07_fg_owns`      — while the shell waits for a foreground job (launched or resumed by `fg`) that job's group owns the terminal;
 * `C07_bg_never_owns`— no other job of the table ever does;
 * `C07_one_group`    — every stage of every pipeline is in the group led by its first stage from the parent's `setpgid` on
-                       (this is what `fix:` 35a9330 established; `C07_before_fix_race` is the interleaving that broke it);
+                       (this is what `fix:` 59a1f03 established; `C07_before_fix_race` is the interleaving that broke it);
 * `C07_report_once`  — no job incarnation is announced as finished twice, and an announced one is absent from the table;
 * `C07_wait_complete_partial` — when the wait for a single process ends, that process is stopped or gone (guard: one process);
 * `C07_signal_whole`, `C07_ctrlZ_stops_pipeline` — a signal to the job's group (Ctrl-Z, Ctrl-C, the SIGCONT of `fg` / `bg`)
@@ -28,7 +28,7 @@ twice and returns while another still runs (`C07_finding_wait_counts_twice`, als
 namespace Cicada.C07
 open Cicada.Jobs Cicada.Term
 
-/-- the setting of the property: an interactive session, the code as it is since `fix:` 35a9330 -/
+/-- the setting of the property: an interactive session, the code as it is since `fix:` 59a1f03 -/
 def cfg : Cfg := { parentSetpgid := true, interactive := true }
 
 /-- the code before that commit: only the children call `setpgid` -/
@@ -213,7 +213,7 @@ def raceActs : List Act :=
 
 def raceState : State := (run cfgBefore (init 9) raceActs).get (by decide)
 
-/-- before `fix:` 35a9330: a reachable state in which the second stage sits in the shell's own process group; the
+/-- before `fix:` 59a1f03: a reachable state in which the second stage sits in the shell's own process group; the
 Ctrl-Z that stops the first stage leaves it running, and the shell goes on waiting -/
 theorem C07_before_fix_race : Reachable cfgBefore raceState ∧ ¬ OneGroup raceState ∧
     (∃ p ∈ raceState.procs, p.pid = 12 ∧ p.st = .running ∧ p.pgid = 9) ∧ (∃ p ∈ raceState.procs, p.pid = 11 ∧ p.st = .stopped) := by
